@@ -66,10 +66,10 @@ func Dot(spec *Spec, w io.WriteCloser, fromNode, toNode string) error {
 			// placeholder so that the branch still gets its edge
 			// (and the remaining branches are still processed).
 			fmt.Fprintf(w, "  %s [shape=\"record\", style=\"dashed\", color=\"gray\", label=<%s> ]\n",
-				name, name)
+				dotId(name), dotText(name))
 			return nil
 		}
-		label := name
+		label := dotText(name)
 		if n.Doc != "" {
 			doc := n.Doc
 			if 40 < len(doc) {
@@ -121,7 +121,7 @@ func Dot(spec *Spec, w io.WriteCloser, fromNode, toNode string) error {
 			style += ",dashed"
 		}
 		fmt.Fprintf(w, "  %s [shape=\"%s\", style=\"%s\", color=\"%s\", fillcolor=\"%s\", label=<%s> ]\n",
-			name, shape, style, color, fillcolor, label)
+			dotId(name), shape, style, color, fillcolor, label)
 
 		return nil
 	}
@@ -153,7 +153,7 @@ func Dot(spec *Spec, w io.WriteCloser, fromNode, toNode string) error {
 				if err != nil {
 					js = []byte(err.Error())
 				}
-				label = string(js)
+				label = dotText(string(js))
 				label = strings.Replace(label, "\n", `<BR ALIGN="LEFT"/>`, -1)
 			}
 			label += `<BR ALIGN="LEFT"/>`
@@ -201,7 +201,7 @@ func Dot(spec *Spec, w io.WriteCloser, fromNode, toNode string) error {
 			// label = fmt.Sprintf("[%d/%d] %s", i+1, len(n.Branches.Branches), label)
 			label = fmt.Sprintf("%d/%d %s", i+1, len(n.Branches.Branches), label)
 			fmt.Fprintf(w, "  %s -> %s [ color=\"%s\" label = <%s> ]\n",
-				name, b.Target, color, label)
+				dotId(name), dotId(b.Target), color, label)
 		}
 
 		return nil
@@ -221,6 +221,21 @@ func Dot(spec *Spec, w io.WriteCloser, fromNode, toNode string) error {
 
 	fmt.Fprintf(w, "}\n")
 	return w.Close()
+}
+
+// dotId quotes a node name for use as a Graphviz ID.  (A name like
+// "wait-for-it" or "@next" isn't an ID unless it's quoted.)
+func dotId(name string) string {
+	return `"` + strings.Replace(name, `"`, `\"`, -1) + `"`
+}
+
+// dotText escapes text for use inside an HTML-like label.  (Think of
+// a pattern with an inequality variable like "?<n".)
+func dotText(s string) string {
+	s = strings.Replace(s, "&", "&amp;", -1)
+	s = strings.Replace(s, "<", "&lt;", -1)
+	s = strings.Replace(s, ">", "&gt;", -1)
+	return s
 }
 
 // PNG generates a PNG image based on output from Dot.
